@@ -333,3 +333,131 @@ Section Series.
         apply in_map_iff in Hk. destruct Hk as [j [Hj _]]. inversion Hj. exfalso. exact (iname_not_port p w Hin H0).
   Qed.
 End Series.
+
+(* ---------------- the generator functions ---------------- *)
+Lemma wf_internal_fresh u r : wf_unit u = true ->
+  unused_name (name_fuel (unit_names u)) (unit_names u) "i" = Ok r -> mem r (map fst (unit_io u)) = false.
+Proof.
+  intros Hwf Hr. unfold wf_unit in Hwf. apply andb_prop in Hwf. destruct Hwf as [_ Hc].
+  rewrite forallb_forall in Hc. specialize (Hc r (unused_name_cands _ _ _ _ Hr)).
+  rewrite (unused_name_fresh _ _ _ _ Hr) in Hc. simpl in Hc. apply negb_true_iff in Hc. exact Hc.
+Qed.
+
+Lemma series_gen_valid u a b n wa wb : wf_unit u = true -> 2 <= n ->
+  assoc a (u_sigs u) = Some wa -> assoc b (u_sigs u) = Some wb ->
+  exists iname uname, series_gen u a b n = Ok (series_module u a b n iname uname) /\
+     mem iname (map fst (unit_io u)) = false /\ mem iname (unit_names u) = false /\
+     mem uname (iname :: unit_names u) = false.
+Proof.
+  intros Hwf Hn Ha Hb. unfold series_gen, series_port.
+  assert (n <? 1 = false) as -> by lia. assert (n =? 1 = false) as -> by lia. rewrite Ha, Hb. cbn [bind].
+  destruct (unused_name_ok (unit_names u) "i") as [iname [Hi Hif]]. rewrite Hi. cbn [bind].
+  destruct (unused_name_ok (iname :: unit_names u) "units") as [uname [Hu Huf]]. rewrite Hu. cbn [bind].
+  exists iname, uname. repeat split; try assumption. eapply wf_internal_fresh; eauto.
+Qed.
+
+Lemma series_gen_inv u a b n m : 2 <= n -> series_gen u a b n = Ok m ->
+  exists wa wb iname uname, assoc a (u_sigs u) = Some wa /\ assoc b (u_sigs u) = Some wb /\
+     unused_name (name_fuel (unit_names u)) (unit_names u) "i" = Ok iname /\ m = series_module u a b n iname uname.
+Proof.
+  intros Hn. unfold series_gen, series_port.
+  assert (n <? 1 = false) as -> by lia. assert (n =? 1 = false) as -> by lia.
+  destruct (assoc a (u_sigs u)) as [wa|]; cbn [bind]; [|discriminate].
+  destruct (assoc b (u_sigs u)) as [wb|]; cbn [bind]; [|discriminate].
+  destruct (unused_name (name_fuel (unit_names u)) (unit_names u) "i") as [iname|] eqn:Ei; cbn [bind]; [|discriminate].
+  destruct (unused_name _ (iname :: unit_names u) "units") as [uname|]; cbn [bind]; [|discriminate].
+  intros H; inversion H. exists wa, wb, iname, uname. repeat split; reflexivity.
+Qed.
+
+(* a series port that is not a signal-valued port of the unit (absent, or bundle valued): rejected *)
+Lemma series_gen_rejects u a b n : 2 <= n -> assoc a (u_sigs u) = None \/ assoc b (u_sigs u) = None ->
+  exists e, series_gen u a b n = Error e.
+Proof.
+  intros Hn H. unfold series_gen, series_port.
+  assert (n <? 1 = false) as -> by lia. assert (n =? 1 = false) as -> by lia.
+  destruct (assoc a (u_sigs u)); cbn [bind]; [|eauto]. destruct H as [H|H]; [discriminate|]. rewrite H. cbn [bind]. eauto.
+Qed.
+
+(* ---------------- Wrapper ---------------- *)
+Section Wrapper.
+  Variables (u : unit) (iname : name).
+  Hypothesis Hwf : wf_unit u = true.
+  Let io := unit_io u.
+  Let m := wrapper_module u iname.
+  Let x := {| i_name := iname; i_n := 0; i_of := TDev unit_dev io;
+              i_conns := map (fun e : N * (name * Z) => (fst (snd e), XSig (fst e) (snd (snd e)))) (number io 0%N) |}.
+
+  Lemma wrapper_bits p w : In (p, w) io -> unit_bits m x 0 p = Ok (map (pair p) (bits_of w)).
+  Proof.
+    intros Hin. pose proof (wf_parts u Hwf) as [Hw Hnd]. fold io in Hw, Hnd.
+    assert (1 <= w) as Hw1 by (rewrite forallb_forall in Hw; specialize (Hw _ Hin); simpl in Hw; lia).
+    destruct (In_number io (p, w) Hin 0%N) as [id Hid].
+    unfold unit_bits, elem_conn. cbn [i_conns x].
+    rewrite (assoc_number (fun e : N * (name * Z) => (fst (snd e), XSig (fst e) (snd (snd e)))) io
+               (fun e => eq_refl) 0%N id p w Hnd Hid).
+    cbn [inst_ports i_of x]. rewrite (assoc_In_nodup io p w Hnd Hin). cbn [ofopt bind fst snd i_n].
+    assert (i_n x =? 0 = true) as -> by reflexivity.
+    cbn [xwidth]. assert (w <? 1 = false) as E by lia. rewrite E. cbn [bind].
+    rewrite Z.eqb_refl. cbn [bind xbits]. rewrite E. cbn [bind].
+    unfold sig_bits, bits_of. induction (iota (Z.to_nat w) 0 1) as [|j js IH]; [reflexivity|].
+    cbn [map traverse].
+    assert (leaf_name m (id, j) = Ok (p, j)) as ->.
+    { unfold leaf_name, m, wrapper_module. cbn [m_leaves fst snd]. unfold leaves_of.
+      rewrite (assocN_number (fun pw : name * Z => LSig (fst pw)) (unit_io u) 0%N id (p, w) Hid). reflexivity. }
+    cbn [bind]. rewrite IH. reflexivity.
+  Qed.
+End Wrapper.
+
+(* ---------------- model nets = specification keys ---------------- *)
+(* the net (signal bit of the generated module) that realises a key of Spec/C19Topology.v: module port bits are
+   themselves; chain k is bit k of the internal bus.  Injective as soon as the internal name is no port name. *)
+Definition net_of (iname : name) (key : netkey) : name * Z :=
+  match key with KPort p j => (p, j) | KChain k j => (iname, k + j) end.
+
+Lemma net_of_injective iname (io : list (name * Z)) k1 k2 :
+  mem iname (map fst io) = false ->
+  (forall p j, k1 = KPort p j -> In p (map fst io)) -> (forall p j, k2 = KPort p j -> In p (map fst io)) ->
+  (forall k j, k1 = KChain k j -> j = 0) -> (forall k j, k2 = KChain k j -> j = 0) ->
+  net_of iname k1 = net_of iname k2 -> k1 = k2.
+Proof.
+  intros Hi P1 P2 C1 C2. apply mem_false_iff in Hi.
+  destruct k1 as [p j|k j], k2 as [q l|k' l]; simpl; intros H; inversion H; subst.
+  - reflexivity.
+  - exfalso. apply Hi. eapply P1. reflexivity.
+  - exfalso. apply Hi. eapply P2. reflexivity.
+  - rewrite (C1 _ _ eq_refl) in *. rewrite (C2 _ _ eq_refl) in *. f_equal. lia.
+Qed.
+
+Lemma series_model_meets_spec u a b n iname uname k p w :
+  wf_unit u = true -> 2 <= n -> a <> b -> assoc a (u_sigs u) = Some 1 -> assoc b (u_sigs u) = Some 1 ->
+  mem iname (map fst (unit_io u)) = false -> 0 <= k < n -> In (p, w) (unit_io u) ->
+  let io := unit_io u in
+  let x := {| i_name := uname; i_n := n; i_of := TDev unit_dev io;
+              i_conns := map (series_conn (N.of_nat (List.length io)) n a b) (number io 0%N) |} in
+  unit_bits (series_module u a b n iname uname) x k p
+  = Ok (map (fun j => net_of iname (series_key n a b k p j)) (bits_of w)).
+Proof.
+  intros Hwf Hn Hab Ha Hb Hi Hk Hin io x.
+  pose proof (wf_parts u Hwf) as [_ Hnd].
+  destruct (String.eqb p a) eqn:Ea.
+  - apply String.eqb_eq in Ea. subst p.
+    assert (w = 1) as ->.
+    { pose proof (assoc_In_nodup (unit_io u) a w Hnd Hin) as E1.
+      pose proof (assoc_In_nodup (unit_io u) a 1 Hnd (a_in_io u a Ha)) as E2. congruence. }
+    unfold x, io. rewrite (unit_bits_first u a b n iname uname Hwf Hn Hab Ha k Hk).
+    unfold series_key. rewrite String.eqb_refl. change (bits_of 1) with [0]. cbn [map].
+    destruct (k =? 0); cbn [net_of]; rewrite ?Z.add_0_r; reflexivity.
+  - apply String.eqb_neq in Ea. destruct (String.eqb p b) eqn:Eb.
+    + apply String.eqb_eq in Eb. subst p.
+      assert (w = 1) as ->.
+      { pose proof (assoc_In_nodup (unit_io u) b w Hnd Hin) as E1.
+        pose proof (assoc_In_nodup (unit_io u) b 1 Hnd (b_in_io u b Hb)) as E2. congruence. }
+      unfold x, io. rewrite (unit_bits_second u a b n iname uname Hwf Hn Hb k Hk).
+      unfold series_key. assert (String.eqb b a = false) as -> by (apply String.eqb_neq; congruence).
+      rewrite String.eqb_refl. change (bits_of 1) with [0]. cbn [map].
+      destruct (k =? n - 1); cbn [net_of]; rewrite ?Z.add_0_r; reflexivity.
+    + apply String.eqb_neq in Eb.
+      unfold x, io. rewrite (unit_bits_parallel u a b n iname uname Hwf Hn k p w Hin Ea Eb).
+      f_equal. apply map_ext. intros j. unfold series_key.
+      apply String.eqb_neq in Ea. apply String.eqb_neq in Eb. rewrite Ea, Eb. reflexivity.
+Qed.
